@@ -284,6 +284,12 @@ def _(i0, i1, s0, s1, b0, k0, k1, k2):
     return NsAttrParent(child=[None, NsAttr(a=s0, x=None), NsAttr(a="v", x=i0)][k0], kids=[NsAttr(a=s0), NsAttr(a=None, x=1)][:k1])
 
 
+@spec("family", Family, K=(4, 4, 3), valid=lambda i0, i1, s0, s1, b0, k0, k1, k2: _xml(s0), uses="i0 s0 b0 k0 k1 k2")
+def _(i0, i1, s0, s1, b0, k0, k1, k2):
+    pool = [Base(x=i0), Derived(x=1, y=s0), Sibling(x=i0, z=b0), Derived(x=i0, y=None)]
+    return Family(members=[pool[k0], pool[k1]][:k2])
+
+
 # ---- wildcards
 @spec("wild_text", Wild, K=(4, 1, 1), valid=lambda i0, i1, s0, s1, b0, k0, k1, k2: _notblank(s0), uses="s0 k0",
       note="domain: generic text / tail not white-space-only")
@@ -334,4 +340,5 @@ NS_MAPS = [
     {None: NS_B, "xs": NS_A},
     {"ns1": NS_A},
     {"ns0": NS_A, "ns2": NS_B},
+    {"p": NS_A, "": NS_A},
 ]
